@@ -455,8 +455,10 @@ func runC04(r *h.Run) {
 			u.cases(func(c *h.Case) bool {
 				if v := evalTrieCase(w, c, u, oracleC04, true); v != nil {
 					v.Unit = w.Unit()
-					w.Report(*v)
-					return false
+					if w.Report(*v) {
+						return false
+					}
+					return !w.Stopped()
 				}
 				return !w.Stopped()
 			})
